@@ -112,6 +112,9 @@ func main() {
 		c.unnamed()
 	}
 	c.variantCases()
+	if !c.p.scoped {
+		c.numbers()
+	}
 	c.wild(thorough)
 	c.w.Close()
 }
